@@ -546,7 +546,10 @@ func classifyOnce() (dump string, libBlocked []string) {
 			if strings.HasPrefix(l, "\t") || strings.HasPrefix(l, "created by") {
 				continue
 			}
-			if strings.HasPrefix(l, "runtime.") || strings.HasPrefix(l, "sync.") || strings.HasPrefix(l, "internal/") || strings.HasPrefix(l, "sync/atomic.") || strings.HasPrefix(l, "time.") {
+			if strings.HasPrefix(l, "runtime.") || strings.HasPrefix(l, "sync.") || strings.HasPrefix(l, "internal/") || strings.HasPrefix(l, "sync/atomic.") || strings.HasPrefix(l, "time.") ||
+				strings.HasPrefix(l, "io.") || strings.HasPrefix(l, "bufio.") || strings.HasPrefix(l, "bytes.") || strings.HasPrefix(l, "encoding/binary.") {
+				// (standard-library helpers the library calls in a loop: a goroutine spinning through them is
+				// spinning in the library frame below)
 				continue
 			}
 			if strings.Contains(l, libPath) && !strings.Contains(l, "(*Server).Serve.func1") {
